@@ -6,7 +6,7 @@ discipline of the downloader (`DisciplinedRun`: Schedule is called with `from` =
 headers accepted so far; the window length passed to a reservation is at most the cache length).
 `batches` is the list of batches `Results` returned along the run.
 -/
-import YouVerif.C18.ProofsFull
+import YouVerif.C18.ProofsHonest
 namespace YouVerif.C18
 
 /-- Results never hands out more than `maxResultsProcess` items. -/
@@ -165,6 +165,14 @@ theorem no_task_lost (cacheLen maxProc : Nat) (fast : Bool) (offset : Nat) (ops 
     have h2 := hi.occLe k h
     omega
 
+/-- **Hash linkage.**  The scheduled chain (of which, by `results_in_order_once`, everything handed to the importer is a
+prefix) is hash-linked: each accepted header's parent hash is the hash of the header accepted before it
+(`headerHead`; a zero hash means "unset" in the Go code, real Keccak hashes are never zero). Holds for every run. -/
+theorem scheduled_chain_linked (cacheLen maxProc : Nat) (fast : Bool) (offset : Nat) (ops : List Op) :
+    let s := run (init cacheLen maxProc fast offset) ops
+    ∀ i a b, s.sched[i]? = some a → s.sched[i + 1]? = some b → a.hash ≠ 0 → b.parent = a.hash :=
+  (link_run (link_init _ _ _ _) ops).chain
+
 /-! ### progress -/
 
 /-- a correct answer to the peer's pending request: for every requested header a list hashing to its root -/
@@ -234,6 +242,22 @@ theorem progress_expire_all_partial (p : Pools) (out : List (Nat × Nat)) :
     obtain ⟨k, v⟩ := e
     simp only [List.map_cons, expireLoop, pget, if_true, perase]
     exact ih _ _
+
+/-- PARTIAL (progress, third step): an honest answer — for every header of the peer's pending request a list hashing
+to its root — is accepted in full with no error, provided the requested headers have result slots in the window
+(which reservation establishes). -/
+theorem progress_honest_delivery_partial (s : State) (k : Kind) (p : Nat) (hs : List Header)
+    (hg : pget (s.pools k).pend p = some hs) (hsl : Slotted s.cfg s.offset s.cache hs) :
+    (deliver s k p (honestAnswer s k p)).2 = (hs.length, Err.ok) := by
+  obtain ⟨r1, r2, r3⟩ := deliverLoop_honest s.cfg k s.offset hs
+    (DAcc.start s.cache (s.pools k).pool (s.pools k).done) hsl
+  simp only [deliver, honestAnswer, hg, Option.getD_some]
+  generalize deliverLoop s.cfg k s.offset hs (hs.map (root k))
+    (DAcc.start s.cache (s.pools k).pool (s.pools k).done) = res at r1 r2 r3
+  obtain ⟨rest, a, f⟩ := res
+  simp only at r1 r2 r3
+  subst r2
+  simp [r3, DAcc.start]
 
 /-- PARTIAL (the lower half of `never_invalid_chain_statement`): no task below the result window is ever queued,
 in flight or done, so the `index < 0` check can not fire. -/
